@@ -90,7 +90,11 @@ func (l *LogsServer) Export(ctx context.Context, req *collectorlogs.ExportLogsSe
 	if err := apicfg.IsAccepted(ri.ApiKey, keyID); err != nil {
 		return nil, status.Error(codes.Unauthenticated, err.Error())
 	}
-	keyToUse, _ := apicfg.GetReplaceKey(ri.ApiKey, keyID)
+	keyToUse, err := apicfg.GetReplaceKey(ri.ApiKey, keyID)
+	if err != nil {
+		// no key from the client and none supplied by the configuration
+		return nil, status.Error(codes.Unauthenticated, err.Error())
+	}
 
 	if err := ri.ValidateLogsHeaders(); err != nil && err != huskyotlp.ErrMissingAPIKeyHeader {
 		return nil, huskyotlp.AsGRPCError(err)
